@@ -96,6 +96,14 @@ func main() {
 			per = append(per, map[string]interface{}{"config": c, "states": st.States, "transitions": st.Transitions, "depth_completed": st.DepthCompleted, "complete": st.Complete})
 		}
 	}
+	// the same clauses one level up: the partition state machine (with the snapshot a replica restores) ...
+	partCov := partitionPhase(run, time.Now().Add(budget))
+	complete = complete && partCov["complete"].(bool)
+	states += partCov["states"].(int)
+	transitions += partCov["transitions"].(int)
+	// ... and a search "on a whole dataset": C09's fan-out/fan-in scenarios on healthy clusters at bounds 0..1,
+	// counted here only for the per-item clauses C01 states (stored, true score and metadata, ascending, unique, <= k, non-empty)
+	run.RunPart("dataset-search-C09", os.Getenv("VERIF_BIN_C09"), c09Keys, c09Env...)
 	run.Assumptions = []string{
 		"ids {a,b,c,d}, vectors from a 6-point grid in R^2 (ties included), levels {0,1,2}, metadata {nil,{k:v1},{k:v2,j:w}}; queries: one stored point and two off-grid points; k in {0,1,2,5}",
 		"update = partition.updateValue's lookup/remove/merge/insert through the public API (the partition's own code path is exercised by C02/C04)",
@@ -111,13 +119,34 @@ func main() {
 		"depth":                         depth,
 		"min_depth_completed":           minDepth,
 		"per_config":                    per,
+		"partition_level":               partCov,
 		"outcome_classes":               outcomes,
 		"samples":                       samples.List(),
 		"exhaustive":                    complete,
 	})
 }
 
+const c09Keys = `:(more-than-k|empty|not-stored|duplicate-id|stale-score|wrong-metadata|unsorted)$`
+
+var c09Env = []string{"VERIF_PART_MAXBOUND=1", "VERIF_PART_SCENARIOS=^(inner-P[123]|outer-P1-local|outer-P2-two-nodes|outer-P3-R2|outer-P2-k0|outer-P2-kall|full-P2-two-nodes|full-P3-all|full-P2-two-searches|full-P3-R2)"}
+
 func replay(path string) {
+	if ev.PartOf(path) == "C09" {
+		ev.ReplayPart("C01", os.Getenv("VERIF_BIN_C09"), c09Keys, path, c09Env...)
+	}
+	var pf struct {
+		Replay struct {
+			Ops []pOp `json:"partition_ops"`
+		} `json:"replay"`
+	}
+	if b, err := os.ReadFile(path); err == nil && json.Unmarshal(b, &pf) == nil && len(pf.Replay.Ops) > 0 {
+		if _, k, d := pBuild(pf.Replay.Ops); k != "" {
+			fmt.Printf("VIOLATION property=C01 replay=%s\n  %s: %s\n", path, k, d)
+			os.Exit(1)
+		}
+		fmt.Println("replay: property held")
+		return
+	}
 	var f struct {
 		Replay struct {
 			Config config `json:"config"`
